@@ -82,13 +82,13 @@ func TestC35(t *testing.T) {
 		return
 	}
 	rnd := vt.Rand()
-	deathBudget := vt.Pick(0, 60)
+	deathBudget := vt.Pick(0, 25)
 	cases := vt.TLCCases(t)
 	for i, c := range cases {
 		c = vt.Normalize(c)
 		mode := "outage"
 		// thorough: every k-th crashing TLC case is also run with real process death
-		if deathBudget > 0 && len(vt.List(c["crashes"])) > 0 && (i+int(vt.Seed()))%(len(cases)/60+1) == 0 {
+		if deathBudget > 0 && len(vt.List(c["crashes"])) > 0 && (i+int(vt.Seed()))%(len(cases)/25+1) == 0 {
 			mode = "death"
 			deathBudget--
 		}
@@ -109,7 +109,7 @@ func TestC35(t *testing.T) {
 			crashes = append(crashes, 1+rnd.Intn(4*nb))
 		}
 		mode := "outage"
-		if vt.Thorough() && len(crashes) > 0 && rnd.Intn(12) == 0 {
+		if vt.Thorough() && len(crashes) > 0 && rnd.Intn(25) == 0 {
 			mode = "death"
 		}
 		run(vt.Case{"blocks": bl, "uc": rnd.Intn(2) == 0, "ooo": rnd.Intn(2) == 0, "crashes": crashes, "mode": mode,
